@@ -105,7 +105,8 @@ def junk_decl(rnd, cls=None, first=None):
     if cls == 'novalue':
         return rnd.choice(['color:', 'color :', 'color: /*c*/', 'color:  ']), cls, 'ident'
     # malformed priority after a complete value
-    tail = rnd.choice(['!important x', '! important 1', '!', '! 12', '!important !important', '! "s"', '!important ( )'])
+    tail = rnd.choice(['!important x', '! important 1', '!', '! 12', '!important !important', '! "s"', '!important ( )',
+                       '!foo', '! imp', '!importan', '!x-important', '!IMPORTANT2'])
     return 'color: red ' + tail, cls, 'ident'
 
 
